@@ -60,7 +60,7 @@ def cases(seed, tier):
                 if not any(rg):
                     rg[rng.randrange(3)] = 1
                 out.append({"group": "func", "functional": fname, "rep": rep, "derived": derived, "phase": ph, "rg": rg,
-                            "debug": False, "maxpts": 8 if quick else 40, "d": rng.choice([2, 3]), "s": 0.4,
+                            "debug": False, "maxpts": 8 if quick else 40, "d": rng.choice([2, 3, 2, 3, 7]), "s": 0.4,
                             "seed": sub_seed(seed, "c10s", k)})
                 k += 1
     # debug mode on: the implementation check substitutes every tensor of an EditableModule before the functional starts
